@@ -62,6 +62,18 @@ NOTES = {
  'C07-9': 'first missed: C07 fed trees to the dialects; it now also writes the filter as TEXT (with and without blanks) around contents a decoder would rewrite (%27, %20, a%27)%20or%20..., &#39;, +), parses it with the real lexer / parser and judges the SQL the same way',
  'C19-8': 'first missed: long filters (100-450 clauses, 1 500-element lists; thousands of tokens) with a whitespace run at EVERY optional position added',
  'C20-9': 'first missed: the process digests now list per-probe outcomes (so the differing probe is the replay), import orders include the SQLAlchemy / Django backends first, and every built-in is probed with 0-4 arguments against arities typed in from the specification',
+ 'C01-10': 'first missed: C01 lacked the or-chains of eq / in terms with a null test at every position (either operand order) that C02 / C03 had; adding them exposed the genuine defect D44 on the clean tree (fix d7f5487)',
+ 'C04-10': 'first missed: pairs of sibling lambdas over ONE collection with one operator and one variable, joined by and / or, plain and negated (any-and-any, all-or-all ...) added for kids, tags, o/ps',
+ 'C11-10': 'first missed: names one compatibility character away from a built-in (long s, full-width and superscript letters, ordinal indicators) and g\u1d49o namespaces added',
+ 'C12-11': 'first missed: lambdas whose body is a bare field / path / literal (not a condition) added to the relational filters of C12',
+ 'C15-9': 'first missed: Django bases were the default manager and QuerySets only; a secondary manager with its own conditions (P.live), a related manager (o1.ps) and a many-to-many manager added',
+ 'C16-10': 'first missed: == was compared with structural identity on random pairs only; two spellings of one value per literal kind (GUID letter case, +5 / 5, 1.0 / 1.00, P1D / PT24H, Z / +00:00 ...) added, through ==, != and set membership',
+ 'C20-10': 'first missed: histories with TWO errors in one string (a call that would be rejected, then a syntax / tokenising error later in the text) added',
+ 'C03-10': 'first caught only through the tie: decomposed / precomposed pairs and compatibility singletons (Cafe + U+0301 / Caf\u00e9, ANGSTROM SIGN / \u00c5, KELVIN SIGN / K) added to the string pools, as literals and as row values',
+ 'C05-10': 'first caught only through the tie: every rendering is also parsed with its OPERATOR keywords in upper / title / alternating letter case',
+ 'C07-10': 'first caught only through the tie: field spellings are now also written as TEXT (\"a\", \"a\"\" OR 1=1 --\", [a], `a` ...): whatever the lexer accepts must end up inside exactly one quoted identifier',
+ 'C08-10': 'first caught only through the tie: a Boolean literal before / after a numeric literal in one filter, with the values 1 / 0 / 1.0 / 0.0 among the assignments (true == 1 in Python)',
+ 'C19-9': 'first caught only through the tie: whitespace runs of 64, 65, 500, 5 000 characters (blanks, tabs, line breaks) at every whitespace position added',
  'C20-4': 'first missed: accumulation histories (40-120 repetitions of one input, nine kinds that leave a parenthesis open) and extreme single inputs added',
 }
 
@@ -72,12 +84,12 @@ def main():
     n = len(res); caught = sum(1 for rc, v in res.values() if rc == '1'); inp = sum(1 for rc, v in res.values() if rc == '1' and 'no-failing' not in v)
     out = ["### 0.5 Seeded changes and which checks catch them", "",
     "Every seeded change below compiles, leaves the pinned suite at 648 passed / 10 xfailed / 4 errors, and was confirmed in a scratch worktree (its own `demo.py` passes on HEAD and fails with the patch;",
-    "`harness/confirm_seed.sh`). They were written in nine rounds by fresh sub-agents that saw only the property text, a scratch worktree of /repo and (from round 2 on) one-line summaries of the",
+    "`harness/confirm_seed.sh`). They were written in ten rounds by fresh sub-agents that saw only the property text, a scratch worktree of /repo and (from round 2 on) one-line summaries of the",
     "earlier seeds for the same property so as to differ in mechanism - nothing from /verif. `harness/seed_matrix.sh` applies each in an isolated scratch worktree, runs the quick check of its",
     f"property in a scratch copy of /verif and writes `seeded/RESULTS.tsv`: {caught} of {n} are reported, {inp} with a failing input. Where a change was first missed (or caught only through a broken",
     "tie), the generator or the judge was strengthened (last column, regenerated by `harness/mkseedtable.py`) - the properties and the pass criteria were not touched. First-time detection per round",
     "(own check, before any strengthening): rounds 1-2 (47 seeds): the first misses are the ones marked in the last column (C03-3, C08-3, C12-2, C12-3, C12-4); round 3 (11 seeds): 7 with a failing input,",
-    "1 through the tie only, 3 missed; round 4 (20 seeds): 8 with a failing input, 3 through the tie only, 9 missed; round 5 (20 seeds): 10 with a failing input, 2 through the tie only, 7 missed, 1 crashed the translator; round 6 (20 seeds): 11 with a failing input, 3 through the tie only, 6 missed; round 7 (20 seeds): 13 with a failing input, 4 through the tie only, 3 missed; round 8 (20 seeds): 12 with a failing input, 1 through the tie only, 7 missed; round 9 (20 seeds): 13 with a failing input, 7 missed - rounds 3 to 9 were asked to avoid every mechanism used before, and each miss named a",
+    "1 through the tie only, 3 missed; round 4 (20 seeds): 8 with a failing input, 3 through the tie only, 9 missed; round 5 (20 seeds): 10 with a failing input, 2 through the tie only, 7 missed, 1 crashed the translator; round 6 (20 seeds): 11 with a failing input, 3 through the tie only, 6 missed; round 7 (20 seeds): 13 with a failing input, 4 through the tie only, 3 missed; round 8 (20 seeds): 12 with a failing input, 1 through the tie only, 7 missed; round 9 (20 seeds): 13 with a failing input, 7 missed; round 10 (20 seeds): 8 with a failing input, 5 through the tie only, 7 missed - rounds 3 to 10 were asked to avoid every mechanism used before, and each miss named a",
     "blind spot of a GENERATOR or of a judge's scope (literal spellings, type-confusable contents, sequences on one instance, accumulation, an over-broad refusal rule, a schema feature), never of a theorem.", "",
     "| seed | file(s) | what it changes | caught by | note |", "|---|---|---|---|---|"]
     for d in sorted(glob.glob('/verif/seeded/*/')):
